@@ -41,6 +41,28 @@ impl FragmentShader<f32> for AttrShader {
         keep.then(|| { let [a, b, c, d] = f.var.to_bits().to_be_bytes(); rgba(a, b, c, d) })
     }
 }
+/// The scalar attribute can travel through the pipeline wrapped in different varying types: the vertex shader wraps
+/// it, clipper and rasterizer interpolate the wrapped value, the fragment shader unwraps it.
+pub trait Carrier: re::math::Vary + re::math::Lerp + Clone + 'static { fn wrap(a: f32) -> Self; fn unwrap(&self) -> f32; }
+impl Carrier for f32 { fn wrap(a: f32) -> Self { a } fn unwrap(&self) -> f32 { *self } }
+impl Carrier for re::math::Point2 { fn wrap(a: f32) -> Self { pt2(a, 1.0 - a) } fn unwrap(&self) -> f32 { self.x() } }
+impl Carrier for re::math::Vec3 { fn wrap(a: f32) -> Self { re::math::vec3(0.5, a, -a) } fn unwrap(&self) -> f32 { self.y() } }
+impl Carrier for re::math::color::Color4f { fn wrap(a: f32) -> Self { rgba(0.25, 0.5, 1.0, a) } fn unwrap(&self) -> f32 { self.0[3] } }
+impl Carrier for (re::math::Vec2, f32) { fn wrap(a: f32) -> Self { (re::math::vec2(1.0, 2.0), a) } fn unwrap(&self) -> f32 { self.1 } }
+impl Carrier for re::math::Angle { fn wrap(a: f32) -> Self { re::math::rads(a) } fn unwrap(&self) -> f32 { self.to_rads() } }
+#[derive(Clone, Copy, Debug, PartialEq, Eq, Hash)]
+pub enum VaryKind { F32, Point2, Vec3, Color4f, Tuple, Angle }
+pub const VARY_KINDS: [VaryKind; 6] = [VaryKind::F32, VaryKind::Point2, VaryKind::Vec3, VaryKind::Color4f, VaryKind::Tuple, VaryKind::Angle];
+
+/// `AttrShader` with the attribute wrapped in carrier type `V` between the two shader stages.
+#[derive(Clone)]
+pub struct WrapShader<V> { pub inner: AttrShader, pub _v: std::marker::PhantomData<V> }
+impl<V: Carrier> VertexShader<Vtx, ()> for WrapShader<V> { type Output = Vertex<ClipVec, V>; fn shade_vertex(&self, v: Vtx, _: ()) -> Self::Output { vertex(v.pos, V::wrap(v.attrib)) } }
+impl<'a, B, V: Carrier> VertexShader<Vtx, (&'a Mat4x4<RealToProj<B>>, ())> for WrapShader<V> { type Output = Vertex<ClipVec, V>; fn shade_vertex(&self, v: Vtx, _: (&'a Mat4x4<RealToProj<B>>, ())) -> Self::Output { vertex(v.pos, V::wrap(v.attrib)) } }
+impl<V: Carrier> FragmentShader<V> for WrapShader<V> {
+    fn shade_fragment(&self, f: Frag<V>) -> Option<Color4> { self.inner.shade_fragment(Frag { pos: f.pos, var: f.var.unwrap() }) }
+}
+
 /// colour-buffer word -> attribute value written by `AttrShader`
 pub fn unpack(word: u32) -> f32 { f32::from_bits(word.rotate_left(8)) }
 
@@ -48,7 +70,7 @@ pub const fn color_sentinel(idx: usize) -> u32 { 0xC3A5_0000 | (idx as u32 & 0xF
 pub fn depth_sentinel(idx: usize) -> f32 { (idx as f32 + 1.0) * 1e-9 }
 
 #[derive(Clone, Copy, Debug, PartialEq, Eq, Hash)]
-pub enum TargetKind { Owned, SubView, ColorOnly }
+pub enum TargetKind { Owned, SubView, ColorOnly, /** colour-only target that is a strided sub-view of a larger buffer */ ColorOnlySub }
 #[derive(Clone, Copy, Debug, PartialEq, Eq, Hash)]
 pub enum Door { Render, Batch, Camera }
 
@@ -71,7 +93,7 @@ pub fn geometry(scene: &Scene) -> (Vec<Tri<usize>>, Vec<Vtx>) {
     (faces, verts)
 }
 
-fn through_door<T: Target>(door: Door, scene: &Scene, faces: &[Tri<usize>], verts: &[Vtx], sh: &AttrShader, target: &mut T, ctx: &Context) {
+fn through_door<T: Target, V: Carrier>(door: Door, scene: &Scene, faces: &[Tri<usize>], verts: &[Vtx], sh: &WrapShader<V>, target: &mut T, ctx: &Context) {
     let (l, t, r, b) = scene.vp;
     let vp = viewport(pt2(l, t)..pt2(r, b));
     match door {
@@ -79,11 +101,16 @@ fn through_door<T: Target>(door: Door, scene: &Scene, faces: &[Tri<usize>], vert
         Door::Batch => Batch::new().faces(faces).vertices(verts).uniform(()).shader(sh.clone()).viewport(vp).target(target).context(ctx).render(),
         Door::Camera => {
             // through the public builder: frame = buffer size, viewport = requested rectangle, identity view and projection
-            let mut cam = Camera::new((scene.bw, scene.bh)).mode(Mat4x4::<RealToReal<3, World, re::render::View>>::identity());
-            if l <= r && t <= b { cam = cam.viewport((l..r, t..b)); } else { cam.viewport = vp; }
+            // both builder orders occur (by parity of the viewport origin): mode() then viewport(), and viewport() then mode()
+            let ident = Mat4x4::<RealToReal<3, World, re::render::View>>::identity();
+            let mut cam = if l <= r && t <= b && (l + t) % 2 == 1 { Camera::new((scene.bw, scene.bh)).viewport((l..r, t..b)).mode(ident) } else { let c = Camera::new((scene.bw, scene.bh)).mode(ident); if l <= r && t <= b { c.viewport((l..r, t..b)) } else { c } };
+            if !(l <= r && t <= b) { cam.viewport = vp; }
             cam.project = Mat4x4::identity();
             let to_world: Mat4x4<RealToReal<3, World, World>> = Mat4x4::identity();
-            cam.render(faces, verts, &to_world, sh, (), target, ctx)
+            // (this door also goes through the library's closure-based Shader wrapper instead of a hand-written shader type)
+            let (vs_sh, fs_sh) = (sh.clone(), sh.clone());
+            let wrapped = re::render::shader::Shader::new(move |v: Vtx, u: (&Mat4x4<RealToProj<World>>, ())| VertexShader::shade_vertex(&vs_sh, v, u), move |f: Frag<V>| fs_sh.shade_fragment(f));
+            cam.render(faces, verts, &to_world, &wrapped, (), target, ctx)
         }
     }
 }
@@ -91,11 +118,24 @@ fn through_door<T: Target>(door: Door, scene: &Scene, faces: &[Tri<usize>], vert
 /// Render `scene` (optionally only the triangles in `subset`, in that order) into fresh sentinel-filled buffers.
 /// `prior`: buffers from an earlier call to continue from (same target kind Owned only).
 pub fn render_scene(scene: &Scene, order: Option<&[usize]>, door: Door, kind: TargetKind, ctx: &Context, discard: Discard, prior: Option<(&[u32], &[f32])>) -> Result<Rendered, String> {
+    render_scene_as::<f32>(scene, order, door, kind, ctx, discard, prior)
+}
+pub fn render_scene_vary(vary: VaryKind, scene: &Scene, order: Option<&[usize]>, door: Door, kind: TargetKind, ctx: &Context, discard: Discard, prior: Option<(&[u32], &[f32])>) -> Result<Rendered, String> {
+    match vary {
+        VaryKind::F32 => render_scene_as::<f32>(scene, order, door, kind, ctx, discard, prior),
+        VaryKind::Point2 => render_scene_as::<re::math::Point2>(scene, order, door, kind, ctx, discard, prior),
+        VaryKind::Vec3 => render_scene_as::<re::math::Vec3>(scene, order, door, kind, ctx, discard, prior),
+        VaryKind::Color4f => render_scene_as::<re::math::color::Color4f>(scene, order, door, kind, ctx, discard, prior),
+        VaryKind::Tuple => render_scene_as::<(re::math::Vec2, f32)>(scene, order, door, kind, ctx, discard, prior),
+        VaryKind::Angle => render_scene_as::<re::math::Angle>(scene, order, door, kind, ctx, discard, prior),
+    }
+}
+fn render_scene_as<V: Carrier>(scene: &Scene, order: Option<&[usize]>, door: Door, kind: TargetKind, ctx: &Context, discard: Discard, prior: Option<(&[u32], &[f32])>) -> Result<Rendered, String> {
     let (bw, bh) = (scene.bw, scene.bh);
     let n = (bw * bh) as usize;
     let sub = match order { Some(o) => Scene { tris: o.iter().map(|&i| scene.tris[i].clone()).collect(), ..scene.clone() }, None => scene.clone() };
     let (faces, verts) = geometry(&sub);
-    let sh = AttrShader::new(discard);
+    let sh = WrapShader::<V> { inner: AttrShader::new(discard), _v: std::marker::PhantomData };
     let before = ctx.stats.borrow().clone();
     let init_c: Vec<u32> = match prior { Some((c, _)) => c.to_vec(), None => (0..n).map(color_sentinel).collect() };
     let init_d: Vec<f32> = match prior { Some((_, d)) => d.to_vec(), None => (0..n).map(depth_sentinel).collect() };
@@ -109,6 +149,22 @@ pub fn render_scene(scene: &Scene, order: Option<&[usize]>, door: Door, kind: Ta
             let mut cb = Buf2::new_from((bw, bh), init_c);
             caught(|| through_door(door, &sub, &faces, &verts, &sh, &mut cb, ctx))?;
             (cb.data().to_vec(), None, true)
+        }
+        TargetKind::ColorOnlySub => {
+            let (pw, ph) = (bw + 3, bh + 2);
+            let mut pc: Buf2<u32> = Buf2::new_with((pw, ph), |x, y| 0x7E57_0000 | (y * pw + x));
+            for y in 0..bh { for x in 0..bw { pc[[x + 2, y + 1]] = init_c[(y * bw + x) as usize]; } }
+            {
+                let mut view = pc.slice_mut((2..2 + bw, 1..1 + bh));
+                caught(|| through_door(door, &sub, &faces, &verts, &sh, &mut view, ctx))?;
+            }
+            let mut intact = true;
+            let mut c = vec![];
+            for y in 0..ph { for x in 0..pw {
+                if x >= 2 && x < 2 + bw && y >= 1 && y < 1 + bh { c.push(pc[[x, y]]); }
+                else if pc[[x, y]] != (0x7E57_0000 | (y * pw + x)) { intact = false; }
+            }}
+            (c, None, intact)
         }
         TargetKind::SubView => {
             // strided views into larger sentinel-filled parents, offset (2,1), margins right/bottom
@@ -135,7 +191,7 @@ pub fn render_scene(scene: &Scene, order: Option<&[usize]>, door: Door, kind: Ta
     stats.prims.i = after.prims.i - before.prims.i; stats.prims.o = after.prims.o - before.prims.o;
     stats.verts.i = after.verts.i - before.verts.i; stats.verts.o = after.verts.o - before.verts.o;
     stats.frags.i = after.frags.i - before.frags.i; stats.frags.o = after.frags.o - before.frags.o;
-    Ok(Rendered { color, depth, stats, invocations: sh.invocations.get(), parent_intact })
+    Ok(Rendered { color, depth, stats, invocations: sh.inner.invocations.get(), parent_intact })
 }
 
 // ------------------------------------------------------------------ reference renderer
@@ -145,7 +201,7 @@ pub enum Truth { Outside, Inside { tri: usize, attr: f64, invw: f64 }, Ambiguous
 
 /// Visible candidates of the scene at screen position (px,py): (triangle, attr, 1/w), plus a flag
 /// telling that some triangle is seen (nearly) edge-on there.
-fn candidates(scene: &Scene, px: f64, py: f64) -> (Vec<(usize, f64, f64)>, bool) {
+pub fn candidates(scene: &Scene, px: f64, py: f64) -> (Vec<(usize, f64, f64)>, bool) {
     let (l, t, r, b) = scene.vp;
     let nx = (px - l as f64) / (r as f64 - l as f64) * 2.0 - 1.0;
     let ny = (py - t as f64) / (b as f64 - t as f64) * 2.0 - 1.0;
